@@ -230,11 +230,13 @@ def run(ctx, model):
                 ctx.violation("existing-address-not-readable:" + kind, case, "Tag %r" % (got,))
             elif got.value != want and not (isinstance(want, float) and abs(got.value - want) < 1e-30):
                 ctx.violation("read-wrong-value:" + kind + ":" + t, case, "expected %r got %r" % (want, got.value))
-            # write then read back (not timers/counters: reads only)
-            if kind == "ct" or t == "S":
+            # write then read back (the status file is read-only here)
+            if t == "S":
                 continue
             before = read_table(model)
-            if kind == "bit":
+            if kind == "ct":
+                v = new_value(rng, "N") if sub in ("PRE", "ACC") else rng.random() < 0.5
+            elif kind == "bit":
                 v = rng.random() < 0.5
             elif kind == "words":
                 v = [new_value(rng, t) for _ in range(cnt)]
@@ -275,8 +277,15 @@ def run(ctx, model):
                     continue
                 changed = [x for x in range(len(b0)) if b0[x] != a0[x]]
                 lo, hi = e * sz, (e + cnt) * sz
+                if kind == "ct":
+                    w0 = {"PRE": 2, "ACC": 4}.get(sub, 0)
+                    lo, hi = e * sz + w0, e * sz + w0 + 2
                 if k2 != key or any(not (lo <= x < hi) for x in changed):
                     ctx.violation("write-changed-other-data", wcase, "file %s%d bytes %s" % (k2[0], k2[1], changed[:8]))
+                elif kind == "ct" and sub not in ("PRE", "ACC"):
+                    diff = int.from_bytes(b0[lo:lo + 2], "little") ^ int.from_bytes(a0[lo:lo + 2], "little")
+                    if diff & ~(1 << CT[sub]):
+                        ctx.violation("bit-write-changed-other-bits", wcase, "xor %#x" % diff)
                 elif kind == "bit":
                     diff = int.from_bytes(b0[lo:lo + sz], "little") ^ int.from_bytes(a0[lo:lo + sz], "little")
                     if diff & ~(1 << sub):
